@@ -695,3 +695,138 @@ Example C04_L5_gauge_counter_wf_unfold :
                                \/ (s_name s = n ++ OM_created /\ s_ex s = None))) (f_samples f) /\
              wgk lkey None [] [] (f_samples f) = true)).
 Proof. intros. split; reflexivity. Qed.
+
+(* ================= L5, the two remaining family types and documents over ALL eight types =================
+   proofs/OMUnknownRoundTrip.v, proofs/OMGaugeHistogramRoundTrip.v, proofs/OMDocumentAll.v (witnesses: OMRoundTripWitness3.v) *)
+From V Require Import proofs.OMUnknownRoundTrip proofs.OMGaugeHistogramRoundTrip proofs.OMDocumentAll proofs.OMRoundTripWitness3.
+
+(* unknown: samples named like the family, any labels, any value, optional timestamps, no exemplars, label sets pairwise
+   different - the gauge argument with the type word unknown (om_pre_checks / om_post_checks have no clause for it) *)
+Theorem C04_L5_unknown_family_roundtrip :
+  forall (fix_nhkeys fix_nhsfx fix_tsmix fix_isnan fix_tsexp fix_sname : bool) (NUM : Type)
+         (parse_num parse_float : str -> option NUM) (parse_int : str -> option Z) (num_lt num_eqb : NUM -> NUM -> bool)
+         (num_isinf num_integral num_huge : NUM -> bool) (num_zero num_one num_inf : NUM)
+         (ts_float : Z -> Z -> option NUM) (is_word is_space_re is_digit_re : char -> bool)
+         (val_of : sample -> NUM) (ts_of : sample -> option (om_tsv NUM)) (ex_of : sample -> option (om_exemplar NUM))
+         (n : str) (f : family) (text : str),
+    unknown_family_wf fix_tsexp NUM parse_num parse_float parse_int num_eqb num_isinf val_of ts_of ex_of n f ->
+    om_render true [f] = Ok text ->
+    om_parse false true fix_nhkeys fix_nhsfx fix_tsmix fix_isnan true true fix_tsexp fix_sname NUM parse_num parse_float
+      parse_int num_lt num_eqb num_isinf num_integral num_huge num_zero num_one num_inf ts_float is_word is_space_re
+      is_digit_re text
+    = Ok [gfam_of NUM val_of ts_of ex_of f].
+Proof. exact om_unknown_family_roundtrip. Qed.
+Print Assumptions C04_L5_unknown_family_roundtrip.
+
+Example C04_L5_unknown_family_wf_unfold :
+  forall fix_tsexp NUM parse_num parse_float parse_int num_eqb num_isinf val_of ts_of ex_of n f,
+    unknown_family_wf fix_tsexp NUM parse_num parse_float parse_int num_eqb num_isinf val_of ts_of ex_of n f
+    <-> (f_name f = n /\ n <> [] /\ f_type f = Expo.S_unknown /\ (f_unit f = [] \/ ends_with (USCORE :: f_unit f) n = true) /\
+         Forall (fun s => read_ok fix_tsexp NUM parse_num parse_float parse_int num_eqb num_isinf val_of ts_of ex_of s /\
+                          s_ex s = None /\ s_name s = n) (f_samples f) /\
+         ForallOrdPairs (fun s1 s2 => ~ Permutation (s_labels s1) (s_labels s2)) (f_samples f)).
+Proof. intros. reflexivity. Qed.
+
+(* gaugehistogram: groups of n_bucket samples as for a histogram (bounds strictly increasing up to +Inf, values integral,
+   numbers, not negative, not decreasing; exemplars on buckets), then optionally n_gcount (integral, equal to the last
+   bucket value) and n_gsum TOGETHER; n_gsum is any number (not NaN) and may be negative provided some bound is
+   (the parser refuses a negative _gsum with non-negative buckets); no timestamps *)
+Theorem C04_L5_gaugehistogram_family_roundtrip :
+  forall (fix_nhkeys fix_nhsfx fix_tsmix fix_isnan fix_tsexp fix_sname : bool) (NUM : Type)
+         (parse_num parse_float : str -> option NUM) (parse_int : str -> option Z) (num_lt num_eqb : NUM -> NUM -> bool)
+         (num_isinf num_integral num_huge : NUM -> bool) (num_zero num_one num_inf : NUM)
+         (ts_float : Z -> Z -> option NUM) (is_word is_space_re is_digit_re : char -> bool)
+         (val_of : sample -> NUM) (ts_of : sample -> option (om_tsv NUM)) (ex_of : sample -> option (om_exemplar NUM))
+         (n : str) (f : family) (text : str),
+    gaugehistogram_family_wf fix_isnan fix_tsexp NUM parse_num parse_float parse_int num_lt num_eqb num_isinf num_integral
+      num_huge num_zero num_inf val_of ts_of ex_of n f ->
+    om_render true [f] = Ok text ->
+    om_parse false true fix_nhkeys fix_nhsfx fix_tsmix fix_isnan true true fix_tsexp fix_sname NUM parse_num parse_float
+      parse_int num_lt num_eqb num_isinf num_integral num_huge num_zero num_one num_inf ts_float is_word is_space_re
+      is_digit_re text
+    = Ok [gfam_of NUM val_of ts_of ex_of f].
+Proof. exact om_gaugehistogram_family_roundtrip. Qed.
+Print Assumptions C04_L5_gaugehistogram_family_roundtrip.
+
+Example C04_L5_gaugehistogram_family_wf_unfold :
+  forall fix_isnan fix_tsexp NUM parse_num parse_float parse_int num_lt num_eqb num_isinf num_integral num_huge
+         num_zero num_inf val_of ts_of ex_of n f,
+    let hs_ok := om_ghsample_ok fix_isnan fix_tsexp NUM parse_num parse_float parse_int num_lt num_eqb num_isinf num_integral
+                   num_huge num_zero num_inf val_of ts_of ex_of n in
+    (gaugehistogram_family_wf fix_isnan fix_tsexp NUM parse_num parse_float parse_int num_lt num_eqb num_isinf num_integral
+       num_huge num_zero num_inf val_of ts_of ex_of n f
+     <-> (f_name f = n /\ n <> [] /\ f_type f = Expo.S_gaugehistogram /\
+          (f_unit f = [] \/ ends_with (USCORE :: f_unit f) n = true) /\
+          exists groups, f_samples f = concat groups /\
+            Forall (fun grp => exists k bks cs, grp = bks ++ cs /\
+                      Forall (fun s => hs_ok s /\ hkey n s = k) grp /\
+                      bks <> [] /\ Forall (fun s => s_name s = n ++ OM_bucket) bks /\
+                      bchain NUM parse_float num_lt num_eqb val_of None num_zero bks /\
+                      (exists b, lastb NUM parse_float None bks = Some b /\ num_eqb b num_inf = true) /\
+                      (cs = [] \/ exists c sm, cs = [c; sm] /\ s_name c = n ++ OM_gcount /\ s_name sm = n ++ OM_gsum /\
+                                               num_eqb (lastv NUM val_of num_zero bks) (val_of c) = true /\
+                                               (num_lt (val_of sm) num_zero = true ->
+                                                negf NUM parse_float num_lt num_zero false bks = true))) groups /\
+            NoDup (map (ghgroup_key n) groups) /\ Forall (fun grp => NoDup (map sid_of grp)) groups))
+    /\ (forall s, hs_ok s <->
+          (read_ok fix_tsexp NUM parse_num parse_float parse_int num_eqb num_isinf val_of ts_of ex_of s /\ s_ts_om s = None /\
+           ((s_name s = n ++ OM_bucket /\
+             (exists lv b, In (OM_le, lv) (s_labels s) /\ parse_float lv = Some b /\ str_eqb lv OM_NaN = false /\
+                           num_eqb b num_inf && negb (str_eqb lv OM_pInf) = false) /\
+             num_integral (val_of s) = true /\ counts_ok fix_isnan NUM num_lt num_eqb num_huge num_zero (val_of s))
+            \/ (s_name s = n ++ OM_gcount /\ s_ex s = None /\ num_integral (val_of s) = true /\
+                counts_ok fix_isnan NUM num_lt num_eqb num_huge num_zero (val_of s))
+            \/ (s_name s = n ++ OM_gsum /\ s_ex s = None /\
+                num_eqb (val_of s) (val_of s) = true /\ (fix_isnan = true \/ num_huge (val_of s) = false))))).
+Proof. intros. split; [|intro s]; reflexivity. Qed.
+
+(* documents over all eight metric types *)
+Theorem C04_L5_document_roundtrip_all :
+  forall (fix_nhkeys fix_nhsfx fix_tsmix fix_isnan fix_tsexp fix_sname : bool) (NUM : Type)
+         (parse_num parse_float : str -> option NUM) (parse_int : str -> option Z) (num_lt num_eqb : NUM -> NUM -> bool)
+         (num_isinf num_integral num_huge : NUM -> bool) (num_zero num_one num_inf : NUM)
+         (ts_float : Z -> Z -> option NUM) (is_word is_space_re is_digit_re : char -> bool)
+         (val_of : sample -> NUM) (ts_of : sample -> option (om_tsv NUM)) (ex_of : sample -> option (om_exemplar NUM))
+         (fams : list family) (text : str),
+    Forall (family_wf_all fix_isnan fix_tsexp NUM parse_num parse_float parse_int num_lt num_eqb num_isinf num_integral num_huge
+              num_zero num_one num_inf val_of ts_of ex_of) fams ->
+    ForallOrdPairs names_apart fams ->
+    om_render true fams = Ok text ->
+    om_parse false true fix_nhkeys fix_nhsfx fix_tsmix fix_isnan true true fix_tsexp fix_sname NUM parse_num parse_float
+      parse_int num_lt num_eqb num_isinf num_integral num_huge num_zero num_one num_inf ts_float is_word is_space_re
+      is_digit_re text
+    = Ok (map (gfam_of NUM val_of ts_of ex_of) fams).
+Proof. exact om_document_roundtrip_all. Qed.
+Print Assumptions C04_L5_document_roundtrip_all.
+
+Example C04_L5_family_wf_all_unfold :
+  forall fix_isnan fix_tsexp NUM parse_num parse_float parse_int num_lt num_eqb num_isinf num_integral num_huge
+         num_zero num_one num_inf val_of ts_of ex_of f,
+    family_wf_all fix_isnan fix_tsexp NUM parse_num parse_float parse_int num_lt num_eqb num_isinf num_integral num_huge
+      num_zero num_one num_inf val_of ts_of ex_of f
+    <-> (family_wf fix_isnan fix_tsexp NUM parse_num parse_float parse_int num_lt num_eqb num_isinf num_integral num_huge
+           num_zero num_one num_inf val_of ts_of ex_of f
+         \/ unknown_family_wf fix_tsexp NUM parse_num parse_float parse_int num_eqb num_isinf val_of ts_of ex_of (f_name f) f
+         \/ gaugehistogram_family_wf fix_isnan fix_tsexp NUM parse_num parse_float parse_int num_lt num_eqb num_isinf num_integral
+              num_huge num_zero num_inf val_of ts_of ex_of (f_name f) f).
+Proof. intros. reflexivity. Qed.
+
+(* non-vacuity: the six-type hostile document of C04_L5_document_all_types_nonvacuous extended by an unknown family (hostile
+   name and labels, a nanosecond timestamp, a negative value) and a gaugehistogram (hostile name and labels, bounds -1.0 /
+   0.5 / +Inf, an exemplar with hostile labels on a bucket, _gcount, a NEGATIVE _gsum; a second child with +Inf only):
+   every family meets family_wf_all (in particular the two new hypotheses), the names do not clash, and the document is read
+   back (computed on the models with the numeric toy oracle) *)
+Example C04_L5_document_all8_nonvacuous : forall fix_isnan fix_tsexp fix_sname,
+  (Forall (family_wf_all fix_isnan fix_tsexp Z milli_num milli_num toy_int Z.ltb Z.eqb (fun z => (Z.abs z =? MILLI_INF)%Z)
+             (fun z => (z mod 1000 =? 0)%Z) (fun _ => false) 0%Z 1000%Z MILLI_INF milli_val toy_ts toy_ex) all8_doc
+   /\ ForallOrdPairs names_apart all8_doc
+   /\ om_render true all8_doc = Ok all8_text)
+  /\ toy_text2 fix_tsexp fix_sname all8_text = Ok (map (gfam_of Z milli_val toy_ts toy_ex) all8_doc).
+Proof. exact (fun a b c => conj (all8_doc_hyps a b) (all8_doc_reads b c)). Qed.
+
+Example C04_L5_unknown_gaugehistogram_nonvacuous : forall fix_isnan fix_tsexp,
+  unknown_family_wf fix_tsexp Z milli_num milli_num toy_int Z.eqb (fun z => (Z.abs z =? MILLI_INF)%Z) milli_val toy_ts toy_ex
+    uname hostile_unknown
+  /\ gaugehistogram_family_wf fix_isnan fix_tsexp Z milli_num milli_num toy_int Z.ltb Z.eqb (fun z => (Z.abs z =? MILLI_INF)%Z)
+       (fun z => (z mod 1000 =? 0)%Z) (fun _ => false) 0%Z MILLI_INF milli_val toy_ts toy_ex ghname hostile_gaugehistogram.
+Proof. exact (fun a b => conj (hostile_unknown_wf b) (hostile_gaugehistogram_wf a b)). Qed.
